@@ -383,8 +383,8 @@ def _feature_maps(spec, fs, rng, bounded=False):
             r = rng.integers(3)
             maps.append(T.UMap(i, g()) if r == 0 else (T.VMap(i, g(), scale=2.0, center=1.0) if r == 1 else T.SLNMap(i, g())))
         i += 1
-    if rng.integers(3) == 0:
-        maps.append(T.SLNMap(0, g()))
+    if rng.integers(3) == 0 and not spec.get("scale_invariant_maps"):
+        maps.append(T.SLNMap(0, g()))   # a transform of the density itself (not scale invariant)
     return T.FeatureList(maps)
 
 
